@@ -49,6 +49,8 @@ class BoundsChecker:
         self.len_consts = module_len_consts  # NAME -> X where NAME = len(X) at module level
         self.violations: list[tuple[ast.Subscript, str]] = []
         self.checked: list[str] = []
+        self.range_hi: dict[str, ast.expr] = {}  # loop variable -> exclusive upper bound of its range()
+        self.param_kinds: dict[tuple[int, int], str] = {}  # (text param, bound param) -> 'lt' | 'le'
 
     # ---------------------------------------------------------------- helpers
     def texts_of_len(self, e: ast.expr, facts: Facts) -> list[str]:
@@ -240,10 +242,17 @@ class BoundsChecker:
         if not ok:
             params = self.fn.params
             msg = f'`{norm(sub)}`: no dominating bound `{norm(idx)} < len({x})`'
+            hi = self.range_hi.get(idx.id) if isinstance(idx, ast.Name) else None
             if isinstance(idx, ast.Name) and idx.id in params and x in params and self.fn.cls is None \
                     and not self._assigned(idx.id) and not self._assigned(x):
                 # a helper indexing its own parameters: becomes a precondition checked at every call site
                 self.param_violations.append((params.index(x), params.index(idx.id), sub, msg))
+            elif isinstance(hi, ast.Name) and hi.id in params and x in params and self.fn.cls is None \
+                    and not self._assigned(hi.id) and not self._assigned(x):
+                # for k in range(lo, HI): text[k]  with HI a parameter: callers must establish HI <= len(text)
+                key = (params.index(x), params.index(hi.id))
+                self.param_kinds[key] = 'le'
+                self.param_violations.append((*key, sub, f'`{norm(sub)}`: the loop bound `{hi.id}` must satisfy {hi.id} <= len({x})'))
             else:
                 self.violations.append((sub, msg))
 
@@ -252,10 +261,17 @@ class BoundsChecker:
 
     def check_call_preconds(self, e: ast.Call, facts: Facts) -> None:
         if isinstance(e.func, ast.Name) and e.func.id in self.preconds:
-            for ti, ii in self.preconds[e.func.id]:
+            for pc in self.preconds[e.func.id]:
+                ti, ii = pc[0], pc[1]
+                kind = pc[2] if len(pc) > 2 else 'lt'
                 if ti < len(e.args) and ii < len(e.args):
-                    lt, _ = self.upper(e.args[ii], facts)
+                    lt, le_ = self.upper(e.args[ii], facts)
                     self.checked.append(f'{norm(e)}@{e.lineno}')
+                    if kind == 'le':
+                        if norm(e.args[ti]) not in (lt | le_):
+                            self.violations.append((e, f'`{norm(e)}`: {e.func.id}() scans its text argument up to the given bound, '
+                                                       f'but `{norm(e.args[ii])} <= len({norm(e.args[ti])})` does not hold here'))
+                        continue
                     if norm(e.args[ti]) not in lt:
                         self.violations.append((e, f'`{norm(e)}`: {e.func.id}() indexes its text argument at the given position, '
                                                    f'but no bound `{norm(e.args[ii])} < len({norm(e.args[ti])})` holds here'))
@@ -265,6 +281,7 @@ class BoundsChecker:
             facts.kill(target.id)
             if isinstance(it, ast.Call) and isinstance(it.func, ast.Name) and it.func.id == 'range' and it.args:
                 hi = it.args[0] if len(it.args) == 1 else it.args[1]
+                self.range_hi[target.id] = hi
                 lt, le = self.upper(hi, facts)
                 for x in le:
                     facts.lt.add((target.id, x))
